@@ -63,9 +63,29 @@ def run(ctx):
     accepted_positions = 0
     always_safe = 0
     sample_log = []
+    # ---- history: names a caller trusted in earlier calls must not stay trusted (the default lists are per call) --------
+    from skops.io import dumps as _dumps
+    from .c08 import zoo as _zoo
+
+    primed = [n for n in ("posix.getcwd", "os.getcwd", "builtins.eval", "os.system", "subprocess.Popen", "builtins.getattr", "shutil.rmtree",
+                          "operator.attrgetter", "functools.reduce", "numpy.load", "numpy.save", "builtins.open") if n in set(names)][:10]
+    primed += [n for n in ctx.rng.sample(names, 6) if n not in primed]
+    for zname, obj in _zoo():
+        try:
+            zdata = _dumps(obj)
+        except Exception:
+            continue
+        for T in (primed, primed[:3], list(reversed(primed))):
+            ioarch.impl_load(zdata, T)
+            try:
+                get_untrusted_types(data=zdata)
+            except Exception:
+                pass
+    for kind, st, members in states:
+        ioarch.impl_load(ioarch.make_zip(st, members), primed)
     for kind, st, members in states:
         sc = kind["self_check"]["mode"]
-        picks = names if per_kind >= len(names) else ctx.rng.sample(names, per_kind)
+        picks = names if per_kind >= len(names) else primed + ctx.rng.sample(names, per_kind)
         for n in picks:
             m, _, c = n.rpartition(".")
             s2 = json.loads(json.dumps(st))
@@ -95,8 +115,9 @@ def run(ctx):
                 continue
             want = n if kind["loader"] != "MethodNode" else n + ".run"
             if r["outcome"] == "ok" or used:
-                ofails.append((f"dangerous-accepted: {kind['loader']}@{kind['protocol']} named {n!r} loaded/resolved with trusted=None (outcome {r['outcome']})",
-                               dict(kind="archive", schema=s2, members=sorted(members), trusted=None)))
+                ofails.append((f"dangerous-accepted: {kind['loader']}@{kind['protocol']} named {n!r} loaded/resolved with trusted=None (outcome {r['outcome']})"
+                               + (" after earlier calls in this process had passed it in their own trusted lists" if n in primed else ""),
+                               dict(kind="archive", schema=s2, members=sorted(members), trusted=None, primed_with=primed if n in primed else None)))
             elif rep is not None and want not in rep:
                 ofails.append((f"dangerous-unreported: get_untrusted_types does not report {want!r} for a {kind['loader']}@{kind['protocol']} (reported {rep})",
                                dict(kind="archive", schema=s2, members=sorted(members), trusted=None)))
@@ -109,6 +130,51 @@ def run(ctx):
                 break
         if len(ofails) > 6:
             break
+
+    # ---- bound methods of default-trusted receivers: the attribute name is audited whatever the receiver is ----------
+    receivers = [dict(__class__="list", __module__="builtins", __loader__="ListNode", __id__=71, content=[]),
+                 dict(__class__="dict", __module__="builtins", __loader__="DictNode", __id__=72, content={},
+                      key_types=dict(__class__="list", __module__="builtins", __loader__="ListNode", __id__=73, content=[])),
+                 dict(__class__="set", __module__="builtins", __loader__="SetNode", __id__=74, content=[])]
+    try:
+        from sklearn.preprocessing import StandardScaler
+
+        sch, _ = ioarch.read_schema(_dumps(StandardScaler()))
+        receivers.append({k: v for k, v in sch.items() if k not in ("protocol", "_skops_version")})
+        import numpy as _np
+
+        zd = _dumps(_np.arange(3))
+        sch, nm = ioarch.read_schema(zd)
+        import io as _io
+        import zipfile as _zip
+
+        with _zip.ZipFile(_io.BytesIO(zd)) as z:
+            arr_members = {n_: z.read(n_) for n_ in nm}
+        receivers.append({k: v for k, v in sch.items() if k not in ("protocol", "_skops_version")})
+    except Exception:
+        arr_members = {}
+    method_names = ["append", "clear", "tofile", "dump", "__reduce_ex__", "__class__", "__init__", "fit", "copy", "pop", "update", "__getattribute__"]
+    for rcv in receivers:
+        for attr in method_names:
+            s2 = {"__class__": attr, "__module__": rcv["__module__"], "__loader__": "MethodNode", "__id__": 70,
+                  "content": {"func": attr, "obj": json.loads(json.dumps(rcv))}, "protocol": fx["protocol"], "_skops_version": "x"}
+            data = ioarch.make_zip(s2, arr_members)
+            evaluations += 1
+            try:
+                rep = get_untrusted_types(data=data)
+            except Exception:
+                continue                       # the archive did not reach the audit
+            r = ioarch.impl_load(data, None)
+            want = f"{rcv['__module__']}.{rcv['__class__']}.{attr}"
+            if r["outcome"] == "ok":
+                ofails.append((f"method-accepted: bound method {want} of a default-trusted receiver loads with trusted=None",
+                               dict(kind="archive", schema=s2, members=sorted(arr_members), trusted=None)))
+                break
+            if want not in (rep or []):
+                ofails.append((f"method-unreported: get_untrusted_types does not report {want!r} for a MethodNode on a default-trusted receiver (reported {rep})",
+                               dict(kind="archive", schema=s2, members=sorted(arr_members), trusted=None)))
+                break
+            accepted_positions += 1
 
     # ---- model/implementation tie for the default lists themselves ------------------------------------------
     res = iocheck.run_engine(ctx, ctx.budget(120, 3000))
@@ -131,5 +197,16 @@ def run(ctx):
 
 def replay(rep):
     from . import c01
+
+    if rep.get("primed_with"):
+        # the failing history: earlier calls of this process trusted these names explicitly
+        from skops.io import dumps
+        from .c08 import zoo
+
+        for _, obj in zoo():
+            try:
+                ioarch.impl_load(dumps(obj), rep["primed_with"])
+            except Exception:
+                pass
 
     return c01.replay(rep)
